@@ -1,0 +1,94 @@
+package comet
+
+// The index templates of a StorageConfig describe what kind of index the store uses
+// (kind, parameters, training state). They must never hold the store's data themselves:
+// every memtable, every loaded segment and every compaction output needs index
+// instances of its own, otherwise loading a segment deserialises into the very objects
+// the writable memtable is using and the two overwrite each other.
+//
+// The functions below build such instances: a new, empty index configured and trained
+// like the template. Index implementations this package does not know are returned
+// unchanged (they cannot be cloned), which keeps the previous behaviour for them.
+
+// newVectorIndexLike returns an empty vector index built like template.
+func newVectorIndexLike(template VectorIndex) VectorIndex {
+	switch t := template.(type) {
+	case *FlatIndex:
+		if idx, err := NewFlatIndex(t.dim, t.distanceKind); err == nil {
+			return idx
+		}
+	case *HNSWIndex:
+		t.mu.RLock()
+		defer t.mu.RUnlock()
+		if idx, err := NewHNSWIndex(t.dim, t.distanceKind, t.M, t.efConstruction, t.efSearch); err == nil {
+			return idx
+		}
+	case *IVFIndex:
+		t.mu.RLock()
+		defer t.mu.RUnlock()
+		if idx, err := NewIVFIndex(t.dim, t.nlist, t.distanceKind); err == nil {
+			idx.centroids = cloneVectors(t.centroids)
+			idx.trained = t.trained
+			return idx
+		}
+	case *PQIndex:
+		t.mu.RLock()
+		defer t.mu.RUnlock()
+		if idx, err := NewPQIndex(t.dim, t.distanceKind, t.M, t.Nbits); err == nil {
+			idx.codebooks = cloneVectors(t.codebooks)
+			idx.trained = t.trained
+			return idx
+		}
+	case *IVFPQIndex:
+		t.mu.RLock()
+		defer t.mu.RUnlock()
+		if idx, err := NewIVFPQIndex(t.dim, t.distanceKind, t.nlist, t.M, t.Nbits); err == nil {
+			idx.centroids = cloneVectors(t.centroids)
+			idx.codebooks = cloneVectors(t.codebooks)
+			idx.trained = t.trained
+			return idx
+		}
+	}
+	return template
+}
+
+// newTextIndexLike returns an empty text index built like template.
+func newTextIndexLike(template TextIndex) TextIndex {
+	if _, ok := template.(*BM25SearchIndex); ok {
+		return NewBM25SearchIndex()
+	}
+	return template
+}
+
+// newMetadataIndexLike returns an empty metadata index built like template.
+func newMetadataIndexLike(template MetadataIndex) MetadataIndex {
+	if _, ok := template.(*RoaringMetadataIndex); ok {
+		return NewRoaringMetadataIndex()
+	}
+	return template
+}
+
+// newHybridIndexLike returns an empty hybrid index whose sub-indexes are built like the templates.
+func newHybridIndexLike(vecIdx VectorIndex, txtIdx TextIndex, metaIdx MetadataIndex) HybridSearchIndex {
+	if vecIdx != nil {
+		vecIdx = newVectorIndexLike(vecIdx)
+	}
+	if txtIdx != nil {
+		txtIdx = newTextIndexLike(txtIdx)
+	}
+	if metaIdx != nil {
+		metaIdx = newMetadataIndexLike(metaIdx)
+	}
+	return NewHybridSearchIndex(vecIdx, txtIdx, metaIdx)
+}
+
+func cloneVectors(in [][]float32) [][]float32 {
+	if in == nil {
+		return nil
+	}
+	out := make([][]float32, len(in))
+	for i := range in {
+		out[i] = append([]float32(nil), in[i]...)
+	}
+	return out
+}
